@@ -5,3 +5,4 @@ import QlibcModel.Props.C14
 #print axioms Qlibc.Props.C14.every_return_unlocked
 #print axioms Qlibc.Props.C14.enter_leave_model
 #print axioms Qlibc.Props.C14.enter_excluded
+#print axioms Qlibc.Props.C14.macro_skeleton_as_modelled
